@@ -61,8 +61,9 @@ func Run(cfg Config) (int, error) {
 		maxLenFor = map[int]int{1: 3, 2: 4, 3: 5, 4: 4}
 	}
 	r := hx.NewRand(cfg.Seed ^ 0xC01)
-	id := identitypreimage.IdentityPreimage([]byte("verif-identity-1"))
-	other := []byte("verif-identity-2")
+	// the two identities agree in their first two and last two bytes (what the log abbreviation shows)
+	id := identitypreimage.IdentityPreimage([]byte("verif-identity-1-zz"))
+	other := []byte("verif-identity-2-zz")
 	type item struct{ line, impl string }
 	items := []item{}
 	violate := func(kind, key, what string, lines []string) {
@@ -274,7 +275,7 @@ func Run(cfg Config) (int, error) {
 			cases = append(cases, c)
 		}
 		idOf := func(i int) identitypreimage.IdentityPreimage {
-			return identitypreimage.IdentityPreimage([]byte(fmt.Sprintf("verif-interleaved-%d", i)))
+			return identitypreimage.IdentityPreimage([]byte(fmt.Sprintf("verif-interleaved-%d-zz", i)))
 		}
 		fails := make([]string, len(cases))
 		var wg2 sync.WaitGroup
